@@ -6,6 +6,12 @@ PROPS = ["C%02d" % i for i in range(1, 20)]
 
 # property -> (technique, level text, design ref)
 CLAIMS = {
+ "C16": ("channel-protocol shape rules over go/ssa: per-path send counting (defers included), edge-dominance of loop exits by channel-closed tests, dominance ordering of the shutdown sequence, select-case control dependence",
+         "Decides structural necessary conditions, not the behaviour: the consumer goroutine drains the wound channel until closed; worker and consumer each send exactly one result on every path; every result-receiving select case re-puts and closes 'cancelled', which is closed nowhere else; the shutdown sequence dominates the return in order; relay/aggregation goroutines exit only on close and always signal; the fail-fast consumer never returns nil from its cancellation case. These quantify over all paths of the protocol code, which no schedule sample can; full deadlock freedom over all interleavings is NOT decided.",
+         "DESIGN.md 4 (C16)"),
+ "C18": ("must-pass-through and verdict-gating path rules over go/ssa CFGs with nil-test edge filtering; per-path event counting; constant agreement",
+         "Decides structural necessary conditions, not the behaviour: in drip.Writer every forward to the underlying writer is preceded (when a validator is set) by Validate on the same slice and unreachable after a non-nil verdict; the validate closure advances the block index exactly once per drip after using it and sends/returns the verdict; the relay goroutine is joined before close; drip buffer, safekeeper buffer and hashing contexts are exactly pwr.BlockSize. Index arithmetic of the slicing and the tiling/ordering of wounds are NOT decided.",
+         "DESIGN.md 4 (C18)"),
  "C10": ("interprocedural wire-taint dataflow with range-guard typestate over go/ssa (sparse fixpoint, edge-dominance guards, validator summaries)",
          "Decides a structural necessary condition, not the behaviour: on every path of every module function, an integer read from a patch/signature/overlay message reaches an index, slice bound, make size, divisor or lake-pool call only under a dominating two-sided range guard (or equality with trusted data), and SignatureInfo.Hashes is never sliced without a len() comparison. All paths of the code are covered, which no input sample can do; nil-dereference, type-assertion panics and non-termination are NOT decided.",
          "DESIGN.md 3.1, 4 (C10)"),
